@@ -26,8 +26,9 @@ def _check_repo_binding():
     import resonaate  # noqa: PLC0415
 
     path = os.path.realpath(resonaate.__file__)
-    if not path.startswith("/repo/src/"):
-        print(f"HARNESS-ERROR resonaate imported from {path}, expected /repo/src", flush=True)
+    want = os.path.realpath(os.path.join(os.environ.get("VERIF_REPO", "/repo"), "src")) + "/"
+    if not path.startswith(want):
+        print(f"HARNESS-ERROR resonaate imported from {path}, expected {want}", flush=True)
         sys.exit(2)
 
 
@@ -112,7 +113,7 @@ def run_check(prop: str, tier: str, seed: int, jobs: int) -> int:
     for fid, (entry, vs) in sorted(matched.items()):
         n = sum(total.violation_counts[s] for s in {v["signature"] for v in vs})
         print(f"KNOWN-FINDING: property={prop} {fid}: {entry['what']} [{n} cases this run]", flush=True)
-    replay_dir = os.path.join(fw.VERIF_ROOT, "replays", prop)
+    replay_dir = os.path.join(fw.OUT_ROOT, "replays", prop)
     seen_sig = set()
     for v in new:
         rc = 1
@@ -172,8 +173,8 @@ def run_check(prop: str, tier: str, seed: int, jobs: int) -> int:
         "wall_s": round(wall, 2),
         "violations": len(new),
     }
-    os.makedirs(os.path.join(fw.VERIF_ROOT, "evidence"), exist_ok=True)
-    with open(os.path.join(fw.VERIF_ROOT, "evidence", f"{prop}.json"), "w") as fh:
+    os.makedirs(os.path.join(fw.OUT_ROOT, "evidence"), exist_ok=True)
+    with open(os.path.join(fw.OUT_ROOT, "evidence", f"{prop}.json"), "w") as fh:
         json.dump(evidence, fh, indent=1, sort_keys=True)
         fh.write("\n")
     print(
